@@ -17,6 +17,7 @@ def run(chk, replay=None):
     progs += corelib.gen_programs(chk, 30 if quick else 400, "gbig", size=70 if quick else 140)
     # witnesses of nested sum / product type that are only partly inspected (the node type is smaller than the declared type)
     progs += corelib.partial_witness_programs(chk, 60 if quick else 1500, "pw")
+    progs += corelib.effect_programs()
     rejected = []
     acc = corelib.check_terms(chk, progs, on_reject=lambda g, a: rejected.append((g, a)))
     for g, a in rejected:
